@@ -151,6 +151,33 @@ pub fn run(ctx: &mut Ctx) {
             ctx.count("boundary_rows");
         }
     }
+    // (a') operand lists of length 3 and 4 over values at the byte-length boundaries of inline atoms: carries and
+    // sign changes in the middle of a list (running totals whose size changes while the fast path is active)
+    {
+        let nblocks = 32;
+        for blk in 0..nblocks {
+            let cid = DIRECTED | id;
+            id += 1;
+            if !ctx.want(cid) || (miri && blk != 0) {
+                continue;
+            }
+            let mut r = ctx.rng(cid);
+            for (li, l) in crate::genr::carry_lists(blk, nblocks).iter().enumerate() {
+                if miri && li % 50 != 0 {
+                    continue;
+                }
+                let mut f = Forest::new();
+                let items: Vec<Id> = l.iter().map(|b| f.atom(b)).collect();
+                let args = f.list(&items);
+                for opname in ["+", "-", "*", "logand", "logior", "logxor", "concat", "sha256"] {
+                    for fl in [ClvmFlags::empty(), ClvmFlags::NEW_COST_MODEL] {
+                        log_op(ctx, &f, opname, args, fl, u64::MAX, r.u64(), 0, cid);
+                    }
+                }
+            }
+            ctx.count("carry_list_blocks");
+        }
+    }
     // (b) sha256 (1 n) precomputed-hash fast path, every n in 0..48, 0/1/3 args
     for n in 0..48i128 {
         let cid = DIRECTED | id;
